@@ -23,12 +23,18 @@
   Of c06's files only `Model.ScriptEval.verifyScript` / `Ctx` / `Err.toExc` and `Spec.Script.Env` /
   `Flags` are used.
 
+    c05.tmpl    kind m keys sigs                the template scripts of Spec/Templates (about which the
+                                                acceptance theorems speak) → `<scriptPubKey>#<scriptSig>`;
+                                                kind ∈ p2pk p2pkh ms p2sh-p2pk p2sh-p2pkh p2sh-ms, keys / sigs
+                                                `,`-separated hex; compared with what the library builds
+
   edit syntax:  ph:k:hex | pn:k:n | ss:k:hex | sq:k:n | va:k:int | pk:k:hex | ii:k:txin | ri:k | wi:k:l
               | io:k:txout | ro:k | wo:k:l | lt:n | ve:int | wt:wit         (txin/txout/wit as in TxFmt)
 -/
 import Driver.Util
 import Driver.TxFmt
 import BtcVerif.Spec.Commit
+import BtcVerif.Spec.Templates
 import BtcVerif.Model.ScriptEval
 import BtcVerif.Crypto.Sha256
 import BtcVerif.Crypto.Sha1
@@ -99,6 +105,24 @@ def predict (ht idx : Nat) (e : Edit) (t : Tx) : String :=
     else if !r && !r' then "same"                             -- irregular_sighash
     else "differs"
 
+def hash160 (x : Bytes) : Bytes := Crypto.ripemd160 (Crypto.sha256 x)
+
+open BtcVerif.Spec.Templates in
+def template (kind : String) (m : Nat) (keys sigs : List Bytes) : Option (Bytes × Bytes) :=
+  match kind, keys, sigs with
+  | "p2pk", [k], [s] => some (p2pkScript k, p2pkScriptSig s)
+  | "p2pkh", [k], [s] => some (p2pkhScript (hash160 k), p2pkhScriptSig s k)
+  | "ms", _, _ => some (multisigScript m keys, multisigScriptSig sigs)
+  | "p2sh-p2pk", [k], [s] =>
+      some (p2shScript (hash160 (p2pkScript k)), p2shScriptSig (p2pkScriptSig s) (p2pkScript k))
+  | "p2sh-p2pkh", [k], [s] =>
+      let r := p2pkhScript (hash160 k)
+      some (p2shScript (hash160 r), p2shScriptSig (p2pkhScriptSig s k) r)
+  | "p2sh-ms", _, _ =>
+      let r := multisigScript m keys
+      some (p2shScript (hash160 r), p2shScriptSig (multisigScriptSig sigs) r)
+  | _, _, _ => none
+
 def handle (op : String) (args : List String) : Option String :=
   match op, args with
   | "c05.table", [ht, i, e] => some <|
@@ -109,6 +133,13 @@ def handle (op : String) (args : List String) : Option String :=
       match parseEdit? e, TxFmt.parseTx? tx with
       | some e, some tx => TxFmt.showTx (apply e tx)
       | _, _ => badArgs
+  | "c05.tmpl", [kind, m, keys, sigs] => some <|
+      match parseNat? m, parseHexList? keys, parseHexList? sigs with
+      | some m, some keys, some sigs =>
+          (match template kind m keys sigs with
+           | some (spk, ssig) => toHex spk ++ "#" ++ toHex ssig
+           | none => badArgs)
+      | _, _, _ => badArgs
   | "c05.verify", [sig, spk, fl, tx, idx] => some <|
       match parseHex? sig, parseHex? spk, parseFlags? fl, TxFmt.parseTx? tx, parseNat? idx with
       | some sig, some spk, some fl, some tx, some idx => verify sig spk fl tx idx
